@@ -7,6 +7,7 @@ import (
 
 	bgvpoly "github.com/tuneinsight/lattigo/v6/circuits/bgv/polynomial"
 	ckkspoly "github.com/tuneinsight/lattigo/v6/circuits/ckks/polynomial"
+	"github.com/tuneinsight/lattigo/v6/circuits/common/polynomial"
 	"github.com/tuneinsight/lattigo/v6/core/rlwe"
 	"github.com/tuneinsight/lattigo/v6/utils/bignum"
 
@@ -276,4 +277,64 @@ func ckksHistoryLeaf(c *engine.Chooser, scName string, spec circ.CKKSSpec, bc ba
 		c.Count(1)
 	}
 	c.Outcome("history", desc)
+}
+
+// vectorValidationLeaf: NewPolynomialVector documents (by its errors) that all polynomials of a vector share basis and
+// degree; a vector violating this at ANY position (first, middle, last) must be refused, in both wrappers.
+func vectorValidationLeaf(c *engine.Chooser) {
+	n := 2 + c.ChooseFree(2, "polys")       // 2 or 3 polynomials
+	odd := c.ChooseFree(n, "odd-one")       // position of the polynomial that differs
+	what := c.ChooseFree(3, "difference")   // 0 basis, 1 higher degree, 2 lower degree
+	scheme := c.ChooseFree(2, "wrapper")    // 0 circuits/ckks/polynomial, 1 circuits/common/polynomial (used by bgv)
+	base := c.ChooseFree(2, "common-basis") // common basis of the others
+	basisOf := func(b int) bignum.Basis {
+		if b == 0 {
+			return bignum.Monomial
+		}
+		return bignum.Chebyshev
+	}
+	mk := func(b bignum.Basis, deg int) bignum.Polynomial {
+		cs := make([]float64, deg+1)
+		for i := range cs {
+			cs[i] = float64(i + 1)
+		}
+		return bignum.NewPolynomial(b, cs, [2]float64{-1, 1})
+	}
+	ps := make([]bignum.Polynomial, n)
+	mp := map[int][]int{}
+	for k := range ps {
+		b, d := basisOf(base), 3
+		if k == odd {
+			switch what {
+			case 0:
+				b = basisOf(1 - base)
+			case 1:
+				d = 5
+			case 2:
+				d = 2
+			}
+		}
+		ps[k] = mk(b, d)
+		mp[k] = []int{k}
+	}
+	desc := fmt.Sprintf("%d polynomials, number %d differs (%s), wrapper %d, common basis %d", n, odd, []string{"basis", "higher degree", "lower degree"}[what], scheme, base)
+	c.Note("%s", desc)
+	var err error
+	_, pan := uni.Try(func() error {
+		if scheme == 0 {
+			_, err = ckkspoly.NewPolynomialVector(ps, mp)
+		} else {
+			_, err = polynomial.NewPolynomialVector(ps, mp)
+		}
+		return nil
+	})
+	switch {
+	case pan != nil:
+		c.Fail("C13/NewPolynomialVector/invalid-vector/panic", "%s: panic: %v", desc, pan)
+	case err == nil:
+		c.Fail("C13/NewPolynomialVector/invalid-vector/accepted", "%s: accepted (no error)", desc)
+	default:
+		c.Cover("vector-validation", "refused")
+	}
+	c.Outcome("validation", desc)
 }
